@@ -144,6 +144,22 @@ theorem overlapping_reported (g : Cfg) (i : Nat) (hi : i < g.nodes.size)
   simp only [hn, he, decide_true, Bool.and_self, if_true]
   rw [hf]
 
+/-- **C11, last clause, the half that holds (`overlapping_report_sound`).** Sharing is never reported
+    where none exists: every 'Node in many functions' item belongs to a function entry with at least
+    two owning functions. (The converse is `overlapping_reported` for entries; for a tail shared through
+    plain jumps it is false of the code: known finding F-16.) -/
+theorem overlapping_report_sound (g : Cfg) (x : Diag) (hx : x ∈ lintOverlapping g) :
+    ∃ i, i < g.nodes.size ∧ (g.get i).funcs.length > 1 ∧ (g.get i).funcs.contains i = true := by
+  unfold lintOverlapping at hx
+  rw [List.mem_filterMap] at hx
+  obtain ⟨i, hi, hx⟩ := hx
+  refine ⟨i, List.mem_range.mp hi, ?_⟩
+  by_cases hc : ((g.get i).funcs.length > 1 && (g.get i).funcs.contains i) = true
+  · simp only [Bool.and_eq_true, decide_eq_true_eq] at hc
+    exact hc
+  · simp only [hc] at hx
+    simp at hx
+
 /-! ### control flow: unreachable code, entering a function other than by a call -/
 
 theorem unreachable_reported (g : Cfg) (i : Nat) (hi : i < g.nodes.size)
